@@ -183,8 +183,8 @@ P_LISTX = P_LIST + ["None"]
 P_LISTOBJ = P_LIST + ["None", "L2([1, 2, 3])", "L3([1, 2])", "(1, 2)", "{1: 2, 5: 6}", "{1, 2}", "bytearray(b'ab')", "5",
                       "'ab'"]
 P_IDX = ["0", "1", "2", "3", "-1", "-2", "-3", "-4", "7", "8", "9", "-9", "-10", "20", "-20", "-21", "40",
-         "2**31", "-2**31", "2**63-1", "-2**63", "True"]
-P_IDXOBJ = P_IDX + ["2**63", "-2**63-1", "2**100", "-2**100", "None", "1.5", "'1'", "Idx(1)", "Idx(-1)", "Idx(99)",
+         "2**31", "-2**31", "2**63-1", "-2**63"]
+P_IDXOBJ = P_IDX + ["True", "2**63", "-2**63-1", "2**100", "-2**100", "None", "1.5", "'1'", "Idx(1)", "Idx(-1)", "Idx(99)",
                     "I2(2)", "IntOnly()"]
 P_VAL = ["None", "7", "'v'", "[]"]
 P_DICT = ["{}", "{1: 'one'}", "{1: 'one', 'k': None, (1, 2): 3}", "{None: 0}", "{1.0: 'f', 2: 'i'}"]
@@ -205,6 +205,8 @@ P_SUBX = P_SUB + ["None", "5", "b'a'", "('a', 'b')", "()", "('x', 'bc', 'c')", "
                   "U2('a')", "('\\u20ac', '\\xe9')", "(('a',),)", "('', )"]
 P_SE = ["0", "1", "2", "3", "4", "5", "6", "7", "-1", "-2", "-3", "-4", "-6", "-7", "100", "-100", "2**63-1", "-2**63",
         "2**63-2", "-2**63+1", "2**62"]
+P_SEB = [x for x in P_SE if x not in ("2**63-1", "2**63-2")]      # bytes tailmatch: these crash the tree (own shape below)
+P_SEBOBJ = P_SEB + ["None", "2**63", "-2**63-1", "2**100", "True", "1.5", "'1'", "Idx(1)", "Idx(2**70)"]
 P_SEOBJ = P_SE + ["None", "2**63", "-2**63-1", "2**100", "-2**100", "True", "1.5", "'1'", "Idx(1)", "Idx(2**70)"]
 P_BYTES = ["b''", "b'a'", "b'abc'", "b'abcabc'", "b'\\xe9t\\xe9'", "b'\\x00\\xff'", "b'ab cd'"]
 P_BYTESX = P_BYTES + ["None"]
@@ -243,7 +245,8 @@ P_CONV = ["None", "0", "5", "-7", "True", "1.5", "-0.0", "2**70", "'12'", "' 12 
           "[1, 2]", "[]", "(1, 2)", "()", "{1: 2}", "{}", "{1, 2}", "set()", "frozenset([1])", "'ab'", "range(3)", "gen_of([1, 2])",
           "L3([1])", "T2((1, 2))", "D2({1: 2})", "S2([1])", "U2('u')", "B2(b'5')", "I2(4)", "F2(2.5)", "[[1, 2], [3, 4]]", "[(1, 2)]",
           "[1]", "IntOnly()", "Idx(3)", "WithLen(0)", "WithLen(2)", "WithLen(-1)", "Truth(0, 2)", "[[1], 2]", "1e400", NAN,
-          "BadIter()", "[[1, [2]]]", "[Unhash()]", "[(Unhash(), 1)]", "memoryview(b'12')", "'1_0'", "'\\u0663'", "object()"]
+          "[[1, [2]]]", "[Unhash()]", "[(Unhash(), 1)]", "'1_0'", "'\\u0663'"]
+P_CONVX = ["BadIter()", "memoryview(b'12')", "object()"]          # reprs carry addresses: not passed to str()
 
 # --------------------------------------------------------------------------------------------
 # call-site shapes: (name, params, body lines, pools per parameter, expected helper token in the C file)
@@ -283,8 +286,6 @@ S("len_obj", ["a"], "return len(a)",
                             "WithLen(2**63-1)", "range(5)", "5", "object"]], "PyObject_Length")
 # ---- abs
 S("abs_obj", ["a"], "return abs(a)", [P_ABS], "__Pyx_PyNumber_Absolute")
-S("abs_pyint", ["int a"], "return abs(a)", [[p for p in P_ABS if p not in ("1.5", "-1.5", "-0.0", NAN, "float('-inf')", "1+2j",
-                                                                              "'a'", "Abs()", "F2(-1.0)")]], None)
 # ---- ord / chr
 S("ord_obj", ["a"], "return ord(a)", [P_ORD], "__Pyx_PyObject_Ord")
 S("ord_str", ["str a"], "return ord(a)", [[p for p in P_ORD if p.startswith("'")] + ["None"]], "__Pyx_PyObject_Ord")
@@ -297,7 +298,9 @@ for nm, texpr in [("list", "list"), ("tup2", "(list, tuple)"), ("many", "(int, s
                   ("user", "(L3, dict)"), ("complex", "complex"), ("slice", "(slice, range, memoryview)")]:
     S("isinstance_" + nm, ["a"], "return isinstance(a, %s)" % texpr, [P_INST], None)
 S("isinstance_var", ["a", "b"], "return isinstance(a, b)", [P_INST[:12] + ["Liar()"], P_TYPES], "PyObject_IsInstance")
-S("isinstance_mixed", ["a", "b"], "return isinstance(a, (list, b))", [P_INST[:12] + ["Liar()", "L3([1])"], P_TYPES], "PyList_Check")
+S("isinstance_mixed", ["a", "b"], "return isinstance(a, (list, b))", [["[1]", "'a'", "None", "L3([1])"],
+                                                                      ["int", "str", "(int, str)", "()", "list", "object", "int | str", "(L3, D2)"]], "PyList_Check")
+S("isinstance_mixed_bad", ["a", "b"], "return isinstance(a, (list, b))", [["[1]", "'a'", "None"], ["5", "None", "(int, 5)", "(5, int)"]], "PyObject_IsInstance")
 # ---- getattr / hasattr
 S("getattr2", ["a", "n"], "return getattr(a, n)", [P_GETATTR, P_NAME], "__Pyx_GetAttr")
 S("getattr3", ["a", "n", "d"], "return getattr(a, n, d)", [P_GETATTR, P_NAME, ["None", "'dflt'"]], "__Pyx_GetAttr3")
@@ -306,7 +309,8 @@ S("hasattr", ["a", "n"], "return hasattr(a, n)", [P_GETATTR, P_NAME], "__Pyx_Has
 for fn, tok in [("int", "__Pyx_PyNumber_Int"), ("float", "__Pyx_PyObject_AsDouble"), ("bool", None), ("str", "__Pyx_PyObject_Unicode"),
                 ("list", "PySequence_List"), ("tuple", "__Pyx_PySequence_Tuple"), ("set", "PySet_New"),
                 ("frozenset", "__Pyx_PyFrozenSet_New"), ("dict", None)]:
-    S("conv_%s_obj" % fn, ["a"], ["r = %s(a)" % fn, "return (r, r is a)"], [P_CONV], tok)
+    S("conv_%s_obj" % fn, ["a"], ["r = %s(a)" % fn, "return (r, r is a)" if fn in ("list", "set", "dict") else "return r"],
+      [[p for p in P_CONV if not (fn == "str" and p.startswith("gen_of"))] + ([] if fn == "str" else P_CONVX)], tok)
 for fn, t, pool, tok in [("list", "list", P_LISTX, None), ("tuple", "list", P_LISTX, "PyList_AsTuple"),
                          ("tuple", "tuple", ["()", "(1, 2)", "None"], None), ("dict", "dict", P_DICTX, "PyDict_Copy"),
                          ("set", "set", P_SETX, None), ("frozenset", "frozenset", ["frozenset()", "frozenset([1])", "None"], None),
@@ -314,7 +318,7 @@ for fn, t, pool, tok in [("list", "list", P_LISTX, None), ("tuple", "list", P_LI
                          ("float", "bytes", ["b'1.5'", "b'x'", "None"], None), ("int", "str", ["'12'", "'x'", "None"], None),
                          ("bool", "list", P_LISTX, None), ("bool", "str", P_STRX, None), ("bool", "dict", P_DICTX, None),
                          ("list", "tuple", ["()", "(1, 2)", "None"], None), ("set", "list", ["[]", "[1, 1]", "[[1]]", "None"], None)]:
-    S("conv_%s_%s" % (fn, t), [t + " a"], ["r = %s(a)" % fn, "return (r, r is a)"], [pool], tok)
+    S("conv_%s_%s" % (fn, t), [t + " a"], ["r = %s(a)" % fn, "return (r, r is a)" if fn in ("list", "set", "dict") else "return r"], [pool], tok)
 S("conv_noarg", [], "return (int(), float(), bool(), str(), list(), tuple(), set(), frozenset(), dict())", [], None)
 S("conv_set_lit", ["a", "b"], "return set([a, b, a])", [["1", "'x'", "[1]", "None"], ["1", "2", "Unhash()"]], None)
 S("conv_frozenset_lit", ["a", "b"], "return frozenset([a, b, a])", [["1", "'x'", "[1]", "None"], ["1", "2", "Unhash()"]], None)
@@ -330,7 +334,7 @@ S("sorted_list", ["list a"], ["r = sorted(a)", "return (r, a, r is a)"], [["[]",
 S("sorted_gen", ["a"], "return sorted(x for x in a)", [P_SORT], None)
 S("sorted_lit", ["a", "b", "c"], "return sorted([a, b, c])", [["1", "'a'", "2.5"], ["0", "None", "3"], ["2", "-1"]], None)
 S("sorted_tuplit", ["a", "b"], "return sorted((a, b))", [["1", "'a'", "2.5"], ["0", "None", "3"]], None)
-S("sorted_call", ["a"], ["r = sorted(list(a))", "return r"], [["[2, 1]", "(2, 1)", "None"]], "__Pyx_PySequence_ListKeepNew")
+S("sorted_call", ["a"], ["r = sorted(list(a))", "return r"], [["[2, 1]", "(2, 1)", "None"]], None)
 # ---- sum / any / all
 S("sum_obj", ["a"], "return sum(a)", [P_NUMS], None)
 S("sum_gen", ["a"], "return sum(x for x in a)", [P_NUMS], None)
@@ -417,6 +421,13 @@ for suf, decl, pool in recv_variants("dict", "dict", P_DICTX, P_DICTOBJ):
     S("dict_contains" + suf, [decl, "k"], ["return (k in a, k not in a)"], [pool, P_KEY], "PyDict_Contains" if typed else None)
     S("dict_views" + suf, [decl], ["return (list(a.keys()), list(a.values()), list(a.items()), type(a.keys()).__name__)"], [pool], None)
     S("dict_copy_clear" + suf, [decl], ["c = a.copy()", "a.clear()", "return (c, a, c is a)"], [pool], None)
+P_DICTM = ["{}", "{1: 10}", "{1: 10, 2: 20}", "{3: 30, 1: 10, 2: 20}"]
+P_KEYM = ["1", "2", "3", "4", "[1]"]
+S("dictm_get", ["dict a", "k", "d"], ["r = a.get(k, d)", "return (r, a)"], [P_DICTM, P_KEYM, ["7"]], "__Pyx_PyDict_GetItemDefault")
+S("dictm_pop", ["dict a", "k", "d"], ["r = a.pop(k, d)", "return (r, a)"], [P_DICTM, P_KEYM, ["7"]], "__Pyx_PyDict_Pop")
+S("dictm_pop1", ["dict a", "k"], ["r = a.pop(k)", "return (r, a)"], [P_DICTM, P_KEYM], "__Pyx_PyDict_Pop")
+S("dictm_popign", ["dict a", "k", "d"], ["a.pop(k, d)", "return a"], [P_DICTM, P_KEYM, ["7"]], "__Pyx_PyDict_Pop_ignore")
+S("dictm_setdefault", ["dict a", "k", "d"], ["r = a.setdefault(k, d)", "return (r, a)"], [P_DICTM, P_KEYM, ["7"]], "__Pyx_PyDict_SetDefault")
 S("dict_unbound_get", ["a", "k"], ["return dict.get(a, k)"], [P_DICTOBJ, P_KEY[:6]], None)
 S("dict_unbound_get_dict", ["dict a", "k"], ["return dict.get(a, k, 5)"], [P_DICTX, P_KEY], "__Pyx_PyDict_GetItemDefault")
 # ---- set methods
@@ -490,13 +501,15 @@ S("str_mul", ["str a", "n"], "return a * n", [P_STR[:4], ["0", "2", "-1", "None"
 # ---- bytes methods
 for meth in ("startswith", "endswith"):
     S("bytes_%s1" % meth, ["bytes a", "s"], "return a.%s(s)" % meth, [P_BYTESX, P_BSUBX], "__Pyx_PyBytes_Tailmatch")
-    S("bytes_%s2" % meth, ["bytes a", "s", "i"], "return a.%s(s, i)" % meth, [P_BYTES + ["None"], P_BSUBX, P_SEOBJ], None, cap=1500)
-    S("bytes_%s3" % meth, ["bytes a", "s", "i", "j"], "return a.%s(s, i, j)" % meth, [P_BYTES, P_BSUBX[:19], P_SEOBJ, P_SEOBJ], None, cap=3000)
+    S("bytes_%s2" % meth, ["bytes a", "s", "i"], "return a.%s(s, i)" % meth, [P_BYTES + ["None"], P_BSUBX, P_SEBOBJ], None, cap=1500)
+    S("bytes_%s3" % meth, ["bytes a", "s", "i", "j"], "return a.%s(s, i, j)" % meth, [P_BYTES, P_BSUBX[:19], P_SEBOBJ, P_SEOBJ], None, cap=3000)
     S("bytes_%s3_ssize" % meth, ["bytes a", "bytes s", "Py_ssize_t i", "Py_ssize_t j"], "return a.%s(s, i, j)" % meth,
-      [P_BYTES, P_BSUB, P_SE, P_SE], None, cap=4000)
+      [P_BYTES, P_BSUB, P_SEB, P_SE], None, cap=4000)
+    S("bytes_%s_hugestart" % meth, ["bytes a", "s", "i"], "return a.%s(s, i)" % meth,
+      [["b'abc'"], ["b'a'", "b''", "(b'x', b'ab')"], ["2**63-1"]], None)
     none_shapes("bytes", meth, P_BYTES, P_BSUB[:6])
     S("bytes_%s_obj" % meth, ["a", "s"], "return a.%s(s)" % meth, [P_BYTES[:4] + ["B2(b'abc')", "bytearray(b'abc')", "'abc'", "None"], P_BSUBX[:16]], None)
-    S("ba_%s" % meth, ["bytearray a", "s", "i"], "return a.%s(s, i)" % meth, [P_BAX, P_BSUBX[:16], P_SEOBJ[:12]], None, cap=800)
+    S("ba_%s" % meth, ["bytearray a", "s", "i"], "return a.%s(s, i)" % meth, [P_BAX, P_BSUBX[:16], P_SEOBJ[:12] + ["2**63-1"]], None, cap=800)
 S("bytes_decode", ["bytes a"], "return (a.decode(), a.decode('utf8'), a.decode('latin1'))", [P_BYTESX], "__Pyx_decode_bytes")
 S("bytes_decode_err", ["bytes a"], "return (a.decode('ascii', 'replace'), a.decode('utf8', 'ignore'), a.decode('utf-16', 'replace'))", [P_BYTESX], None)
 S("bytes_decode_ascii", ["bytes a"], "return a.decode('ascii')", [P_BYTESX], "PyUnicode_DecodeASCII")
@@ -599,7 +612,7 @@ def shape_cases(sh, rng, quick):
         total *= len(p)
     cap = sh["cap"] or 2500
     if quick:
-        cap = min(cap, 260)
+        cap = min(cap, 70)
     if total <= cap:
         return [list(c) for c in itertools.product(*pools)]
     seen = set()
@@ -613,22 +626,40 @@ def shape_cases(sh, rng, quick):
     return out
 
 
+HUGE = re.compile(r"2\*\*(63|100|70)(?!-1|-2)|-2\*\*63-1")
+
+
 def classify(shape, args, got, exp):
     """stable finding class from the input (shape name + argument expressions)"""
     n = shape
     a = list(args)
     if re.search(r"_none[1-4]$", n):
         return "literal_None_start_end_argument"
-    if n.startswith("ord_") and a and (a[0].startswith("'") or a[0].startswith("U2(")) and got == ("exc", "ValueError"):
+    if n.startswith("ord_") and a and a[0][:1] in ("'", "U") and exp == ("exc", "TypeError"):
         return "ord_str_wrong_length_raises_ValueError"
-    if n.startswith("bytes_") and ("startswith" in n or "endswith" in n) and any("2**63-1" in x or "2**63-2" in x or "2**62" in x for x in a[2:3]):
+    if re.match(r"(bytes|ba)_(startswith|endswith)", n) and len(a) >= 3 and a[2] in ("2**63-1", "2**63-2") and n.startswith("bytes"):
         return "bytes_tailmatch_start_plus_sublen_overflow"
     if n.startswith("isinstance_") and a and a[0] in ("Liar()", "LiarD()"):
         return "isinstance_builtin_type_ignores___class__"
-    if any(x in ("1.5",) for x in a) and exp == ("exc", "TypeError"):
-        return "float_accepted_for_c_integer_argument"
-    if any(x == "IntOnly()" for x in a) and exp == ("exc", "TypeError"):
-        return "float_accepted_for_c_integer_argument"
+    idx_args = a[2:] if re.match(r"(str|bytes|ba)_(startswith|endswith|find|rfind|count)", n) else []
+    if re.match(r"bytes_decode_slice_obj", n):
+        idx_args = a[1:]
+    if any(HUGE.search(x) for x in idx_args):
+        return "index_beyond_ssize_t_not_clipped"
+    if n in ("str_replace_n", "str_split2") and a[-1] == "None":
+        return "None_accepted_for_count_or_maxsplit"
+    if n.startswith("isinstance_mixed_bad"):
+        return "isinstance_error_of_runtime_type_swallowed"
+    if a and a[0] == "None" and exp == ("exc", "AttributeError"):
+        return "None_receiver_cached_builtin_method_call"
+    if re.search(r"unbound", n) and exp == ("exc", "TypeError"):
+        return "unbound_method_wrong_receiver_type"
+    if n == "ba_append_lit":
+        return "bytearray_append_char_literal_accepted"
+    if n == "ba_append_obj":
+        return "bytearray_append_object_conversion"
+    if any(x in ("1.5", "IntOnly()") or x.startswith("Idx(") or x.startswith("I2(") for x in a):
+        return "nonint_object_uses_nb_int"
     return "wrong_result:" + n
 
 
@@ -637,7 +668,7 @@ def canon(r):
         return ("none", None)
     if "e" in r:
         return ("exc", r["e"])
-    return ("val", json.dumps({"t": r["t"], "r": r["r"]}, sort_keys=True))
+    return ("val", re.sub(r" at 0x[0-9a-f]+", " at 0x?", json.dumps({"t": r["t"], "r": r["r"]}, sort_keys=True)))
 
 
 def build_all(ctx):
@@ -680,7 +711,7 @@ def check_tokens(ctx, groups):
         for sh in g:
             if not sh["token"]:
                 continue
-            m = re.search(r"static PyObject \*__pyx_pf_[A-Za-z0-9_]*?_\d*f_%s\(.*?\n}\n" % re.escape(sh["name"]), text, re.S)
+            m = re.search(r"static PyObject \*__pyx_pf_\w*?_\d*f_%s\([^;{]*\) \{.*?\n}\n" % re.escape(sh["name"]), text, re.S)
             body = m.group(0) if m else ""
             ctx.case("codegen/helper-reached", {"shape": sh["name"], "token": sh["token"]}, sig=("tok", sh["name"]))
             if sh["token"] not in body:
@@ -705,7 +736,7 @@ def run_differential(ctx, groups):
         a = [{"py": x} for x in args]
         call.append(["c13_m%d.f_%s" % (i, sh["name"]), a])
         call.append(["c13_oracle.f_%s" % sh["name"], a])
-    res = cybuild.call_cases(ctx.workdir, call, setup=setup_code(groups), alarm=10)
+    res = cybuild.call_cases(ctx.workdir, call, setup=setup_code(groups), alarm=10, max_crashes=200)
     out = []
     for k, (i, sh, args) in enumerate(cases):
         got, exp = canon(res[2 * k]), canon(res[2 * k + 1])
@@ -720,12 +751,326 @@ def run_differential(ctx, groups):
     return out
 
 
+import ast
+
+
+def decode(r):
+    """python value from the worker's canonical result (leaves by literal_eval, else the repr text)"""
+    if r is None or "e" in r:
+        return None
+    if isinstance(r["r"], list):
+        v = [decode(x) for x in r["r"]]
+        return tuple(v) if r["t"] == "tuple" else v
+    try:
+        return ast.literal_eval(r["r"])
+    except Exception:
+        return r["r"]
+
+
+def outcome(r):
+    """('exc', name) | ('val', python value)"""
+    if "e" in r:
+        return ("exc", r["e"])
+    return ("val", decode(r))
+
+
+def _mk_app(n):
+    return list(range(n))
+
+
+def _mk_cut(n, m):
+    return list(range(m))
+
+
+EVALNS = {"mk_app": _mk_app, "mk_cut": _mk_cut}
+
+
+def lit(x):
+    return eval(x, dict(EVALNS))
+
+
+def hexs(b):
+    return bytes(b).hex() or "-"
+
+
+def zl(l):
+    return ",".join(str(int(x)) for x in l) or "-"
+
+
+def m_res(line, conv=int):
+    """model output line -> outcome"""
+    if line == "UB":
+        return ("ub", None)
+    if line.startswith("V "):
+        return ("val", conv(line[2:]))
+    if line.startswith("!"):
+        return ("err", line)
+    return ("exc", line)
+
+
+def conv_pop(txt):
+    v, rest = txt.split(" ")
+    return (int(v), [] if rest == "-" else [int(x) for x in rest.split(",")])
+
+
+def conv_vd(txt):
+    v, rest = txt.split(" ")
+    return (int(v), {} if rest == "-" else {int(a.split(":")[0]): int(a.split(":")[1]) for a in rest.split(",")})
+
+
+def conv_d(txt):
+    return {} if txt == "-" else {int(a.split(":")[0]): int(a.split(":")[1]) for a in txt.split(",")}
+
+
+def dstr(d):
+    return ",".join("%d:%d" % kv for kv in d.items()) or "-"
+
+
+def kstr(k):
+    return "U" if isinstance(k, list) else str(k)
+
+
+FIX = {}
+
+
+def detect_fixes(ctx):
+    """which variant of a helper the tree under test contains (the models keep both: see M_Builtins.v).
+    After a proposed fix is applied nothing has to be edited here; C13_TAIL_FIXED / C13_ORD_FIXED override."""
+    def src(rel):
+        with open(os.path.join(ctx.repo, rel)) as f:
+            return f.read()
+    FIX["tail"] = int(os.environ.get("C13_TAIL_FIXED", "start + sub_len <= end" not in src("Cython/Utility/StringTools.c")))
+    FIX["ord"] = int(os.environ.get("C13_ORD_FIXED", "(long)__Pyx_PyUnicode_AsPy_UCS4(c) : __Pyx__PyObject_Ord(c)" not in src("Cython/Utility/Builtins.c")))
+    ctx.extra["model_variants"] = dict(FIX)
+
+
+def model_queries(sh, args):
+    """[(pair name, impl-model query, spec-model query, converter, projection of the impl/oracle outcome)] for a case
+    on the domain of a Gallina model, else None"""
+    n = sh["name"]
+    ident = lambda o: o
+    try:
+        m = re.match(r"bytes_(startswith|endswith)3_ssize$", n)
+        if m:
+            a, sub, i, j = [lit(x) for x in args]
+            d = -1 if m.group(1) == "startswith" else 1
+            return ("tailmatch", "tail %d %d %d %d %s %s" % (FIX["tail"], d, i, j, hexs(a), hexs(sub)),
+                    "pytail %d %d %d %s %s" % (d, i, j, hexs(a), hexs(sub)), lambda t: bool(int(t)), ident)
+        m = re.match(r"bytes_(startswith|endswith)_hugestart$", n)
+        if m and not args[1].startswith("("):
+            a, sub, i = [lit(x) for x in args]
+            d = -1 if m.group(1) == "startswith" else 1
+            return ("tailmatch", "tail %d %d %d %d %s %s" % (FIX["tail"], d, i, 2 ** 63 - 1, hexs(a), hexs(sub)),
+                    "pytail %d %d %d %s %s" % (d, i, 2 ** 63 - 1, hexs(a), hexs(sub)), lambda t: bool(int(t)), ident)
+        m = re.match(r"bytes_(startswith|endswith)1$", n)
+        if m and args[0] != "None" and args[1].startswith("(") and "bytearray" not in args[1] and "((" not in args[1]:
+            a, subs = lit(args[0]), lit(args[1])
+            d = -1 if m.group(1) == "startswith" else 1
+            el = ",".join(hexs(x) if isinstance(x, bytes) else "T" for x in subs) or "-"
+            if any(isinstance(x, bytes) and not x for x in subs):
+                return None          # "-" is the driver's empty list marker
+            return ("tailtuple", "tailtuple %d %d 0 %d %s %s" % (FIX["tail"], d, 2 ** 63 - 1, hexs(a), el),
+                    "pytailtuple %d 0 %d %s %s" % (d, 2 ** 63 - 1, hexs(a), el), lambda t: bool(int(t)), ident)
+        if n in ("list_pop_ssize_list", "list_pop_objidx_list") and args[0] not in ("None", "list('abcdefgh')"):
+            a, i = lit(args[0]), lit(args[1]) if re.match(r"^[-0-9*]+$", args[1]) else None
+            if i is None or not -2 ** 63 <= i < 2 ** 63:
+                return None          # the object -> Py_ssize_t conversion raises first (in CPython too)
+            alloc = len(a) if (len(a) + i) % 2 else 4 * len(a) + 4          # both branches of the allocation test
+            return ("pop_index", "popindex %d %d %s" % (alloc, i, zl(a)), "pypop %d %s" % (i, zl(a)), conv_pop,
+                    lambda o: (o[0], (o[1][0], list(o[1][1]))) if o[0] == "val" else o)
+        if n == "list_pop_list" and args[0] not in ("None", "list('abcdefgh')"):
+            a = lit(args[0])
+            alloc = len(a) if len(a) % 2 else 4 * len(a) + 4
+            return ("pop", "pop %d %s" % (alloc, zl(a)), "pypop -1 %s" % zl(a), conv_pop,
+                    lambda o: (o[0], (o[1][0], list(o[1][1]))) if o[0] == "val" else o)
+        if n in ("bytes_decode_slice", "ba_decode_slice", "str_substring"):
+            a, i, j = [lit(x) for x in args]
+            cmd = "subrange" if n == "str_substring" else "decrange"
+
+            def conv(t, a=a, n=n):
+                if t == "E":
+                    return ("val", "")
+                o, k = [int(x) for x in t.split(" ")]
+                return ("val", a[o:o + k] if n == "str_substring" else bytes(a[o:o + k]).decode("latin1"))
+            proj = (lambda o: (o[0], o[1][0]) if o[0] == "val" else o) if n == "str_substring" else ident
+            return ("slice_range", "%s %d %d %d" % (cmd, len(a), i, j), "pyrange %d %d %d" % (len(a), i, j), ("raw", conv), proj)
+        if n == "ord_obj":
+            x = args[0]
+            kind = "s" if x.startswith("'") else "b" if x.startswith("b'") else "a" if x.startswith("bytearray(") else None
+            if kind is None:
+                return None
+            v = lit(x)
+            cps = [ord(c) for c in v] if kind == "s" else list(v)
+            return ("ord", "ord %d %s %s" % (FIX["ord"], kind, zl(cps)), "pyord %s %s" % (kind, zl(cps)), int, ident)
+        if n == "chr_obj" and re.match(r"^[-0-9*x a-f]+$", args[0]):
+            v = lit(args[0])
+            return ("chr", "chr %d" % v, "pychr %d" % v, lambda t: chr(int(t)), ident)
+        if n.startswith("dictm_"):
+            a = lit(args[0]); k = lit(args[1]); d = lit(args[2]) if len(args) > 2 else None
+            if n == "dictm_get":
+                return ("dict_get", "dget %s %s %d" % (dstr(a), kstr(k), d), "pydget %s %s %d" % (dstr(a), kstr(k), d), int,
+                        lambda o: (o[0], o[1][0]) if o[0] == "val" else o)
+            if n in ("dictm_pop", "dictm_pop1"):
+                dd = "N" if d is None else str(d)
+                return ("dict_pop", "dpop313 %s %s %s" % (dstr(a), kstr(k), dd), "pydpop %s %s %s" % (dstr(a), kstr(k), dd), conv_vd,
+                        lambda o: (o[0], (o[1][0], o[1][1])) if o[0] == "val" else o)
+            if n == "dictm_popign":
+                return ("dict_pop_ignore", "dpopign %s %s" % (dstr(a), kstr(k)), None, conv_d, ident)
+            if n == "dictm_setdefault":
+                return ("dict_setdefault", "dsetdefault %s %s %d" % (dstr(a), kstr(k), d), "pydsetdefault %s %s %d" % (dstr(a), kstr(k), d),
+                        conv_vd, lambda o: (o[0], (o[1][0], o[1][1])) if o[0] == "val" else o)
+        m = re.match(r"(min|max)(\d)_K(perm|list|tuple)?$", n)
+        if m:
+            tab = lit(args[0] if m.group(1) == "min" else args[1])
+            cnt = int(m.group(2))
+            order = {None: [i % 3 for i in range(cnt)], "perm": [2, 0, 1], "list": [0, 1, 2], "tuple": [1, 2, 0]}[m.group(3)]
+            flat = "".join(str({3: 0, 4: 1}.get(v, v)) for row in tab for v in row)
+            op = "<" if m.group(1) == "min" else ">"
+
+            def conv(t):
+                res, tr = t.split(" | ")
+                pairs = [] if tr == "-" else [tuple(int(x) for x in p.split(":")) for p in tr.split(";")]
+                return (m_res(res, lambda v: "K%d" % int(v)), pairs)
+
+            def proj(o):
+                # logged(...) returns (result, LOG) or ('EXC', name, LOG); keep the comparison events only
+                v = o[1]
+                if v[0] == "EXC":
+                    return (("exc", v[1]), [(e[1], e[2]) for e in v[2] if e[0] == op])
+                return (("val", v[0]), [(e[1], e[2]) for e in v[1] if e[0] == op])
+            return ("minmax", "minmax 3 %s %s" % (flat, zl(order)), "pyminmax 3 %s %s" % (flat, zl(order)), ("raw", conv), proj)
+        m = re.match(r"(any|all)_gen(_direct)?$", n)
+        if m and "Truth" in args[0]:
+            modes = [int(x) for x in re.findall(r"Truth\(\d+, (\d)\)", args[0])]
+            ptab = "".join(str(x) for x in modes)
+            q = "%s %s %s %s" % ("1" if m.group(1) == "any" else "0", "1" * len(modes), ptab, zl(range(len(modes))))
+
+            def conv(t, direct=bool(m.group(2))):
+                res, tr = t.split(" | ")
+                ev = [] if tr == "-" else [int(x) for x in tr.split(",")]
+                r = m_res(res, lambda v: bool(int(v)))
+                return r if direct else (r, ev)
+
+            def proj(o, direct=bool(m.group(2))):
+                if direct:
+                    return o
+                v = o[1]
+                if v[0] == "EXC":
+                    return (("exc", v[1]), list(v[2]))
+                return (("val", v[0]), list(v[1]))
+            return ("anyall", "anyall " + q, "pyanyall " + q, ("raw", conv), proj)
+    except Exception as e:      # an argument outside the model's domain (not a literal)
+        return None
+    return None
+
+
+def run_models(ctx, diff):
+    model = ctx.model("builtins")
+    rows = []
+    for sh, args, ri, ro in diff:
+        q = model_queries(sh, args)
+        if q is not None:
+            rows.append((sh, args, ri, ro, q))
+    lines = []
+    for r in rows:
+        lines.append(r[4][1])
+        lines.append(r[4][2] or r[4][1])
+    res = model.batch(lines)
+    for k, (sh, args, ri, ro, (pair, q1, q2, conv, proj)) in enumerate(rows):
+        inp = {"shape": sh["name"], "args": args, "query": q1}
+        ctx.case("model/" + pair, inp, sig=("model", sh["name"], tuple(args)))
+        if isinstance(conv, tuple):
+            mi, ms = conv[1](res[2 * k]), conv[1](res[2 * k + 1])
+        else:
+            mi, ms = m_res(res[2 * k], conv), m_res(res[2 * k + 1], conv)
+        impl, orc = proj(outcome(ri)), proj(outcome(ro))
+        ub = mi == ("ub", None) or (isinstance(mi, tuple) and mi and mi[0] == ("ub", None))
+        if not ub and impl != mi:
+            ctx.corr_break("builtins:" + pair, inp, impl, mi)          # model of the helper vs the compiled helper
+        if q2 is not None and orc != ms:
+            ctx.corr_break("builtins:spec:" + pair, inp, orc, ms)      # Gallina statement of Python's semantics vs CPython
+
+
+SWEEP_SCRIPT = r"""
+import json, sys
+import c13_x
+preds = json.load(sys.stdin)["preds"]
+out = {}
+for p in preds:
+    got = getattr(c13_x, "sweep_" + p)(0, 0x110000)
+    bad = []
+    for i in range(0x110000):
+        if bool(got[i]) != getattr(chr(i), p)():
+            bad.append(i)
+            if len(bad) > 20: break
+    out[p] = bad
+print(json.dumps(out))
+"""
+
+
+def run_extra(ctx):
+    """abs() on C integers (two modules: overflowcheck off/on) and the exhaustive Py_UCS4 predicate sweeps"""
+    model = ctx.model("builtins")
+    cases = []
+    for ovf, mod in ((0, "c13_x"), (1, "c13_xo")):
+        for ct, nm, w in C_INT_ABS:
+            lo, hi = -(2 ** (w - 1)), 2 ** (w - 1) - 1
+            vals = sorted({lo, lo + 1, lo + 2, -1, 0, 1, 2, hi, hi - 1, -(2 ** 31), -(2 ** 31) + 1, 2 ** 31 - 1, -(2 ** 15), -128, 127} |
+                          {ctx.rng.randrange(lo, hi + 1) for _ in range(6)})
+            for x in vals:
+                if lo <= x <= hi:
+                    cases.append((mod, nm, w, True, ovf, x))
+        for ct, nm, w in C_UINT_ABS:
+            for x in (0, 1, 2 ** (w - 1), 2 ** w - 1):
+                cases.append((mod, nm, w, False, ovf, x))
+    res = cybuild.call_cases(ctx.workdir, [["%s.cabs_%s" % (c[0], c[1]), [c[5]]] for c in cases], setup="import c13_x, c13_xo", alarm=5)
+    mq = ["abs %d %d %d" % (c[2], c[4], c[5]) for c in cases]
+    mres = model.batch(mq)
+    for c, r, m in zip(cases, res, mres):
+        mod, nm, w, signed, ovf, x = c
+        inp = {"module": mod, "func": "cabs_" + nm, "args": [x]}
+        ww = max(w, 32)
+        is_min = signed and x == -(2 ** (ww - 1))
+        ctx.case("abs_c/%s/%s" % ("ovfcheck" if ovf else "plain", "min" if is_min else "plain"), inp, sig=(mod, nm, x))
+        got = outcome(r)
+        if not signed or nm == "ssize_t":
+            exp = ("val", abs(x))     # unsigned: identity; Py_ssize_t goes through an unsigned result (no overflow)
+            mval = exp
+        else:
+            if is_min and not ovf:
+                continue          # C undefined behaviour without overflowcheck: outside the property (model: UB)
+            exp = ("val", abs(x)) if abs(x) <= 2 ** (ww - 1) - 1 else ("exc", "OverflowError")
+            mval = m_res(m)
+        if mval != got:
+            ctx.corr_break("builtins:abs_c", inp, got, mval)
+        if got != exp:
+            ctx.fail("abs_c_wrong_result", inp, got, exp)
+    for x in ("-0.0", "1.5", "-2.5", "float('-inf')", "float('nan')"):
+        r = cybuild.call_cases(ctx.workdir, [["c13_x.cabs_double", [{"py": x}]], ["abs", [{"py": x}]]], setup="import c13_x")
+        ctx.case("abs_c/double", {"func": "cabs_double", "args": [x]}, sig=("cabs_double", x))
+        if canon(r[0]) != canon(r[1]):
+            ctx.fail("abs_c_wrong_result", {"func": "cabs_double", "args": [x]}, canon(r[0]), canon(r[1]))
+    # exhaustive: every code point x every optimised unicode predicate, compared inside one process
+    r = cybuild.run_script(SWEEP_SCRIPT, ctx.workdir, {"preds": UCS4_PREDS}, timeout=900)
+    if r["json"] is None:
+        ctx.corr_break("ucs4 sweep", "sweep", (r["rc"], r["err"][-500:]), "sweep runs")
+        return
+    for p in UCS4_PREDS:
+        ctx.count("ucs4_pred/" + p, 0x110000, distinct_sigs=[(p, "exhaustive", 0x110000)])
+        ctx.extra.setdefault("exhaustive_domains", []).append("Py_UCS4.%s(): all 0x110000 code points" % p)
+        for i in r["json"][p][:3]:
+            ctx.fail("ucs4_predicate_differs", {"pred": p, "codepoint": i}, "differs", "chr(%d).%s()" % (i, p))
+
+
 def run(ctx):
+    detect_fixes(ctx)
     ok, groups = build_all(ctx)
     if not ok:
         return
     check_tokens(ctx, groups)
-    run_differential(ctx, groups)
+    diff = run_differential(ctx, groups)
+    run_models(ctx, diff)
+    run_extra(ctx)
 
 
 def replay(ctx, obj):
